@@ -93,8 +93,11 @@ impl ReplicationFetcher {
         for (addr, record_type) in incoming_keys {
             let key = addr.to_record_key();
 
-            // Skip if locally stored or already pending fetch
-            if locally_stored_keys.contains_key(&key)
+            // Skip if this version is locally stored or already pending fetch
+            // (a different version of a held key is fetched, so that divergent copies get merged)
+            if locally_stored_keys
+                .get(&key)
+                .is_some_and(|(_addr, held_type)| held_type == &record_type)
                 || self
                     .to_be_fetched
                     .contains_key(&(key.clone(), record_type.clone(), holder))
